@@ -44,7 +44,7 @@ RULE = ("a case = one history on one configuration (static_set / flat_set over s
         "capacity-aware random histories whose every call is inside its domain (reference leg never na; capacity 8 over "
         "keys -3..8 with 60% starting from 5..8 keys, capacity 4 over 0..5; 120+60 per configuration quick, 1500 thorough); "
         "at capacity 8 every lookup is asked for every key -3..8; a second transparent comparator, etl::greater<> with the "
-        "heterogeneous point and band keys (static_set / flat_set over static_vector, int and tracked keys, capacity 3 and 8). non-trivial = distinct case line whose history reaches a "
+        "heterogeneous point and band keys (static_set / flat_set over static_vector<int>, capacity 3 and 8). non-trivial = distinct case line whose history reaches a "
         "non-empty set")
 
 TRUSTED_BASE = ["reference leg: libstdc++ 12 std::set / std::multiset with the same comparator, bounded by the capacity "
@@ -419,9 +419,9 @@ def gen(tier, rng):
     #         less<> alone a heterogeneous overload that hard-codes less<> instead of key_compare cannot be seen.
     #         From every reachable set at capacity 3 every call (then every lookup for every key, point and band);
     #         domain-respecting random histories at capacity 3 and 8
-    for fam in ("ss", "fsv", "sst", "fst"):
+    for fam in ("ss", "fsv"):
         cmp = "tgreater"
-        if fam in ("ss", "fsv") or not quick:
+        if True:
             alpha = alphabet(fam, 3, cmp=cmp)
             for pre, first in reach_prefixes(3, not quick):
                 head = f"{fam}_{cmp} 3 {pre}".rstrip()
